@@ -4,6 +4,10 @@
    items (all numbers decimal):
      F id name | O id name | P addr psize name | U addr size psize name
      L addr size line file | I depth cline cfile origin k (addr size)*k | W ty addr size psize tag
+     Z addr size psize name len   a FUNC line longer than MAX_BUFFER_CAPACITY (len >= 163840 padding bytes):
+                                  SymbolFile::parse drops it in panic recovery, cur_item stays as it is, so the
+                                  sub-records that follow go to the FUNC block that is still open (C09's model:
+                                  [recovery] bumps the line count only); with no block open they fail the parse (E)
    L / I belong to the FUNC block opened by the last U (O does not close a block; F P U W do).
    answer:  T<tables>;<q1>;<q2>...   with q = D<out>/S<idx>:<out>|S-/G<name>|G-   or  P;;<tag> *)
 let zs = string_of_z
@@ -30,6 +34,7 @@ let () =
     while true do
       let line = input_line stdin in
       if String.length line > 0 && line.[0] <> '#' then begin
+        (try
         let toks = Array.of_list (split_ws line) in
         let n = Array.length toks in
         let pos = ref 0 in
@@ -70,7 +75,7 @@ let () =
           | "L" -> let a = nz () in let s = nz () in let ln = nz () in let fl = nz () in
                    (match !cur with
                     | Some (h, ls, is) -> cur := Some (h, { l_addr = a; l_size = s; l_file = fl; l_line = ln } :: ls, is)
-                    | None -> failwith "L outside FUNC")
+                    | None -> raise Exit)
           | "I" -> let d = nz () in let cl = nz () in let cf = nz () in let og = nz () in
                    let k = int_of_string (next ()) in
                    let rs = List.init k (fun _ -> let a = nz () in let s = nz () in (a, s)) in
@@ -79,7 +84,10 @@ let () =
                         let is' = List.fold_left (fun acc (a, s) ->
                           { i_depth = d; i_addr = a; i_size = s; i_cfile = cf; i_cline = cl; i_origin = og } :: acc) is rs in
                         cur := Some (h, ls, is')
-                    | None -> failwith "I outside FUNC")
+                    | None -> raise Exit)
+          | "Z" -> let _ = nz () in let _ = nz () in let _ = nz () in let _ = nz () in
+                   let len = int_of_string (next ()) in
+                   if len < 163840 then failwith "Z must be over-long"
           | "W" -> close (); let ty = int_of_string (next ()) in
                    let a = nz () in let s = nz () in let ps = nz () in let tg = nz () in
                    let w = { w_addr = a; w_size = s; w_psize = ps; w_tag = tg } in
@@ -104,6 +112,7 @@ let () =
                | r -> fail r)
           | r -> fail r in
         print_endline ans
+        with Exit -> print_endline "E")
       end
     done
   with End_of_file -> ()
